@@ -273,7 +273,7 @@ func (set *ForkIdSet) MakeForkIds(srcs syntax.ForkRootList,
 			stride *= len(these)
 		}
 	}
-	if extra >= 0 {
+	if extra >= 0 && len(set.List) > 0 {
 		set.expandStaticForks(lookup)
 	}
 }
